@@ -6,4 +6,12 @@ import NdnGen.C01
 #print axioms Ndn.C01.sig_value_elem_rejects
 #print axioms Ndn.C01.made_data_is_one_element
 #print axioms Ndn.C01.parse_make_data_partial
+#print axioms Ndn.C01.make_interest_is_core
+#print axioms Ndn.C01.make_interest_params_wire
+#print axioms Ndn.C01.make_interest_plain_wire
+#print axioms Ndn.C01.parse_make_interest
+#print axioms Ndn.C01.parse_make_interest_params
+#print axioms Ndn.C01.parse_make_interest_plain
+#print axioms Ndn.Packet.interest_items
+#print axioms Ndn.Packet.parse_interest_value
 #print axioms Ndn.Gen.C01.schemas_match
